@@ -424,7 +424,9 @@ let rec run (cmd : sexp) : sexp =
       for i = n - 1 downto 0 do
         for d = 3 downto 0 do
           let j = (i * 7 + d * 5 + 1) mod (if n = 0 then 1 else n) in
-          cmps := L [A (string_of_int i); A (string_of_int j); oc (CmpModel.m_cmp_i a regs.(i) regs.(j))] :: !cmps
+          let dfuel = nat_of_int (2 * (int_of_nat (EvalModel.eval_fuel a)) + 2) in
+          cmps := L [A (string_of_int i); A (string_of_int j); oc (CmpModel.m_cmp_i a regs.(i) regs.(j));
+                     bool_ (Extract.m_disjoint_i dfuel a regs.(i) regs.(j)); bool_ (Extract.m_disjoint_i dfuel a regs.(i) (Store.nnot regs.(j)))] :: !cmps
         done
       done;
       L (A "ok" :: out @ (if envs = [] then [] else [L (A "cmps" :: !cmps); L (A "evals" :: evals)]))
